@@ -26,10 +26,10 @@ const inf = 1 << 30
 
 func (g *Grammar) exprHeight(h []int, e *Expr) int {
 	switch e.Kind {
-	case KTerm, KCmd, KOpt:
+	case KTerm, KCmd, KOpt, KMarker:
 		return 0
 	case KNonterm:
-		return h[e.Sym]
+		return h[g.hIndex(e.Sym, e.Flag)]
 	case KList:
 		if !e.Plus {
 			return 0
@@ -54,8 +54,24 @@ func (g *Grammar) exprHeight(h []int, e *Expr) int {
 	}
 }
 
+// hIndex is the index of (nonterminal, value of F) in the height tables; the flag only matters for templated nonterminals.
+func (g *Grammar) hIndex(nt int, flag bool) int {
+	if flag && g.Nonterms[nt].Templ {
+		return 2*nt + 1
+	}
+	return 2 * nt
+}
+
+// eligible reports whether a rule belongs to the instance of its nonterminal for the given flag value.
+func (g *Grammar) eligible(nt int, r *Rule, flag bool) bool {
+	if !g.Nonterms[nt].Templ || r.Cond == 0 {
+		return true
+	}
+	return (r.Cond > 0) == flag
+}
+
 func (g *Grammar) minRuleHeights() ([]int, []int) {
-	n := len(g.Nonterms)
+	n := 2 * len(g.Nonterms)
 	h := make([]int, n)
 	best := make([]int, n)
 	for i := range h {
@@ -64,11 +80,19 @@ func (g *Grammar) minRuleHeights() ([]int, []int) {
 	for changed := true; changed; {
 		changed = false
 		for i, nt := range g.Nonterms {
-			for k, r := range nt.Rules {
-				v := g.exprHeight(h, r.Body)
-				if v < inf && v+1 < h[i] {
-					h[i], best[i] = v+1, k
-					changed = true
+			for f := 0; f < 2; f++ {
+				if f == 1 && !nt.Templ {
+					continue
+				}
+				for k, r := range nt.Rules {
+					if !g.eligible(i, r, f == 1) {
+						continue
+					}
+					v := g.exprHeight(h, r.Body)
+					if v < inf && v+1 < h[2*i+f] {
+						h[2*i+f], best[2*i+f] = v+1, k
+						changed = true
+					}
 				}
 			}
 		}
@@ -79,8 +103,8 @@ func (g *Grammar) minRuleHeights() ([]int, []int) {
 // Productive reports whether every nonterminal derives a terminal string.
 func (g *Grammar) Productive() bool {
 	best, _ := g.minRuleHeights()
-	for _, b := range best {
-		if b < 0 {
+	for i, nt := range g.Nonterms {
+		if best[2*i] < 0 || nt.Templ && best[2*i+1] < 0 {
 			return false
 		}
 	}
@@ -101,17 +125,23 @@ type sampler struct {
 func (g *Grammar) Sample(r *rand.Rand, nt, budget int) ([]int, *Inst) {
 	best, h := g.minRuleHeights()
 	s := &sampler{g: g, r: r, budget: budget, best: best, h: h}
-	inst := s.nonterm(nt)
+	inst := s.nonterm(nt, false)
 	return s.toks, inst
 }
 
-func (s *sampler) nonterm(nt int) *Inst {
+func (s *sampler) nonterm(nt int, flag bool) *Inst {
 	n := s.g.Nonterms[nt]
 	s.depth++
 	defer func() { s.depth-- }()
-	ri := s.r.Intn(len(n.Rules))
+	var el []int
+	for k, r := range n.Rules {
+		if s.g.eligible(nt, r, flag) {
+			el = append(el, k)
+		}
+	}
+	ri := el[s.r.Intn(len(el))]
 	if s.budget <= 0 || s.depth > 50 {
-		ri = s.best[nt]
+		ri = s.best[s.g.hIndex(nt, flag)]
 	}
 	s.budget -= 2
 	inst := &Inst{NT: nt, Rule: ri, S: len(s.toks)}
@@ -128,7 +158,7 @@ func (s *sampler) expr(e *Expr) *Node {
 		s.toks = append(s.toks, e.Sym)
 		s.budget--
 	case KNonterm:
-		n.Inst = s.nonterm(e.Sym)
+		n.Inst = s.nonterm(e.Sym, e.Flag)
 	case KSeq:
 		for _, sub := range e.Sub {
 			n.Kids = append(n.Kids, s.expr(sub))
